@@ -243,6 +243,7 @@ def c10_vocab(run):
     rf_vocab.rf116(run)
     rf_vocab.rf118(run, False)
     rf_vocab.rf143(run)
+    rf_vocab.rf159(run)
 
 
 def c17_rf2(run):
@@ -259,6 +260,8 @@ def c17_rf2(run):
     rf_alloc.rf130(run)
     rf_alloc.rf137(run)
     rf_alloc.rf152(run)
+    rf_alloc.rf164(run)
+    rf_proto.rf163(run)
     run.min_instances('RF78b', 20)
 
 
@@ -289,6 +292,7 @@ def c12_rf13(run):
     rf_bounds.rf105(run)
     rf_bounds.rf135(run)
     rf_bounds.rf146(run)
+    rf_bounds.rf160(run)
     run.min_instances('RF13c', 2)
 
 
@@ -335,7 +339,6 @@ def c01_rf18(run):
     rf_flow.rf97(run)
     rf_flow.rf99(run)
     rf_flow.rf67(run, units=('gen',))
-    rf_x86.rf110(run)
     rf_flow.rf114(run)
     rf_fold.rf48b(run)
     rf_flow.rf131(run)
@@ -375,6 +378,7 @@ def c04_rf18(run):
     rf_fold.rf48b(run)
     rf_fold.rf142(run)
     rf_inline.rf153(run)
+    rf_inline.rf161(run)
     rf_fold.rf100(run)
     rf_flow.rf71(run, units=('mir',))
     run.min_instances('RF71', 3)
@@ -396,6 +400,7 @@ def c16_rf16(run):
     rf_iface.rf31b(run)
     rf_iface.rf132(run)
     rf_proto.rf66(run)
+    rf_proto.rf163(run)
     run.min_instances('RF66', 4)
     rf_x86.rf77(run)
     rf_dispatch.rf7g(run)
@@ -418,6 +423,7 @@ def c13_rf16(run):
     rf_proto.rf138(run)
     rf_proto.rf150(run)
     rf_proto.rf157(run)
+    rf_proto.rf158(run)
 
 
 def c14_rf16f(run):
@@ -434,6 +440,7 @@ def c14_rf16f(run):
     rf_iface.rf132(run)
     rf_iface.rf151(run)
     rf_proto.rf16m(run)
+    rf_proto.rf162(run)
 
 
 def c02_rf7a(run):
@@ -572,6 +579,7 @@ def c02_rf26(run):
     rf_fold.rf86(run)
     rf_fold.rf87(run)
     rf_fold.rf100(run)
+    rf_x86.rf110(run)
     rf_fold.rf141(run)
     rf_fold.rf149(run)
 
